@@ -12,6 +12,7 @@
 //   nonterminating  more than len+8 calls of next() without Ok(None)
 //   after-error     an entry or a second error after an Err ("Iteration cannot continue after an error")
 //   after-end       anything but Ok(None) after Ok(None)
+//   iter-adapter    the std::iter::Iterator impl over a clone of the iterator reports a different sequence
 use crate::util::*;
 use gimli::{
     DebugMacinfo, DebugMacinfoOffset, DebugMacro, DebugMacroOffset, EndianSlice, MacroEntry, MacroIter, MacroString,
@@ -47,6 +48,7 @@ fn entry(e: &MacroEntry<R>, sect: &R) -> String {
 
 fn drive(mut it: MacroIter<R>, sect: &R) -> String {
     let cap = sect.len() + 8;
+    let mut it2 = it.clone();
     let mut toks: Vec<String> = Vec::new();
     let mut steps = 0usize;
     let mut seen_err = false;
@@ -77,6 +79,18 @@ fn drive(mut it: MacroIter<R>, sect: &R) -> String {
     if !ended {
         return format!("nonterminating-mismatch {}", toks.join(" "));
     }
+    // the std `Iterator` adapter (next().transpose()) over a clone reports the same sequence
+    let mut toks2: Vec<String> = Vec::new();
+    let mut n2 = 0usize;
+    while n2 < cap {
+        n2 += 1;
+        match Iterator::next(&mut it2) {
+            None => break,
+            Some(Ok(e)) => toks2.push(entry(&e, sect)),
+            Some(Err(e)) => toks2.push(format!("E.{}", errname(&e))),
+        }
+    }
+    let adapter_differs = toks2 != toks;
     let mut after_end = false;
     for _ in 0..2 {
         match it.next() {
@@ -95,6 +109,8 @@ fn drive(mut it: MacroIter<R>, sect: &R) -> String {
         "after-error-mismatch"
     } else if after_end {
         "after-end-mismatch"
+    } else if adapter_differs {
+        "iter-adapter-mismatch"
     } else {
         "ok"
     };
